@@ -341,29 +341,44 @@ class Report:
 
 # ------------------------------------------------------------------ generic stages
 
-def replay_vectors(rep, exe, cmd, vec_file, extra_args=None, timeout=1800, sample_from=None):
-    """spec -> code: run the harness over a vector file; tally results into the report."""
-    res_file = vec_file + ".res"
-    p = run_harness(exe, [cmd, vec_file, res_file] + (extra_args or []), timeout=timeout)
-    if p.returncode != 0:
-        raise Inconclusive("harness %s failed rc=%d: %s" % (cmd, p.returncode, (p.stderr or p.stdout)[-2000:]))
+def replay_vectors(rep, exe, cmd, vec_file, extra_args=None, timeout=1800, sample_from=None, shards=1):
+    """spec -> code: run the harness over a vector file; tally results into the report.
+    shards > 1 splits the vectors over that many harness processes (independent vectors only)."""
+    files = [vec_file]
+    if shards > 1:
+        outs = [open("%s.s%d" % (vec_file, k), "w") for k in range(shards)]
+        with open(vec_file) as f:
+            for i, line in enumerate(f):
+                outs[i % shards].write(line)
+        for o in outs:
+            o.close()
+        files = [o.name for o in outs]
+    procs = []
+    for vf in files:
+        e = dict(GOENV)
+        procs.append((vf, subprocess.Popen(["timeout", str(timeout), exe, cmd, vf, vf + ".res"] + (extra_args or []),
+                                            env=e, stdout=subprocess.PIPE, stderr=subprocess.PIPE, text=True, errors="replace")))
     n = bad = 0
-    with open(res_file) as f:
-        for line in f:
-            if not line.strip():
-                continue
-            r = json.loads(line)
-            n += 1
-            if r.get("key"):
-                rep.nontriv(r["key"])
-            if not r.get("ok"):
-                if not r.get("sig"):
-                    raise Inconclusive("harness could not run vector %d: %s" % (r.get("i", -1), r.get("detail")))
-                bad += 1
-                rep.violation(r["sig"], {"replay_cmd": cmd, "vector": r.get("case"), "observed": r.get("observed"),
-                                         "expected": r.get("expected"), "detail": r.get("detail")})
+    for vf, p in procs:
+        out, err = p.communicate()
+        if p.returncode != 0:
+            raise Inconclusive("harness %s failed rc=%d: %s" % (cmd, p.returncode, (err or out)[-2000:]))
+        with open(vf + ".res") as f:
+            for line in f:
+                if not line.strip():
+                    continue
+                r = json.loads(line)
+                n += 1
+                if r.get("key"):
+                    rep.nontriv(r["key"])
+                if not r.get("ok"):
+                    if not r.get("sig"):
+                        raise Inconclusive("harness could not run vector %d: %s" % (r.get("i", -1), r.get("detail")))
+                    bad += 1
+                    rep.violation(r["sig"], {"replay_cmd": cmd, "vector": r.get("case"), "observed": r.get("observed"),
+                                             "expected": r.get("expected"), "detail": r.get("detail")})
+        os.unlink(vf + ".res")
     rep.evaluations += n
-    os.unlink(res_file)
     return n, bad
 
 
